@@ -520,7 +520,9 @@ fn session_inner(l: &Launch, seed: u64) -> (Vec<(String, String)>, u64) {
         add_version(&mut findings, &mut nreq, &mut latest, &mut chain, &mut snap, ad, n % 2 == 0, n);
     }
     // time passes: 2 days, then 3 days (edited from outside, as an operator could)
-    for age in [2i64, 3] {
+    // (2 and 3 days cross small configured targets; 15 and 22 days cross the defaults' low and high
+    // thresholds, so a server started without the options shows which defaults it really has)
+    for age in [2i64, 3, 15, 22] {
         let ok = (|| -> Result<(), String> {
             let con = rusqlite::Connection::open(dir.join(DB_FILE)).map_err(|e| e.to_string())?;
             con.busy_timeout(Duration::from_secs(5)).ok();
